@@ -410,12 +410,19 @@ class DisjunctionMaxMatcher(UnionMatcher):
         aq = a.block_quality()
         bq = b.block_quality()
         while a.is_active() and b.is_active() and max(aq, bq) <= minquality:
+            sk = 0
             if aq <= minquality:
-                skipped += a.skip_to_quality(minquality)
+                sk += a.skip_to_quality(minquality)
                 aq = a.block_quality()
             if bq <= minquality:
-                skipped += b.skip_to_quality(minquality)
+                sk += b.skip_to_quality(minquality)
                 bq = b.block_quality()
+            if not sk:
+                # Neither sub-matcher could skip any further (a compound
+                # sub-matcher stops at a block whose quality equals
+                # minquality): give up instead of spinning
+                break
+            skipped += sk
         return skipped
 
 
